@@ -65,6 +65,8 @@ fn main() {
                             let b = verif_common::run_plain::<mac::{root}>(gid, input, ind); \
                             format!(\"{{}},\\\"macro_same\\\":{{}}}}}}\", &a[..a.len() - 1], a == b) }}"
                     )
+                } else if flags.contains("observe") {
+                    format!("verif_common::run_plain_obs::<grammar::{root}>(gid, input, ind, user::observe)")
                 } else if ctx == "-" {
                     format!("verif_common::run_plain::<grammar::{root}>(gid, input, ind)")
                 } else {
